@@ -7,7 +7,13 @@ Line protocol of the C06 harness (tokens after the leading `C06`):
   gc <self> <follower01> <members> <pin|-> <replies> => <peer:st,..> | err       (Cluster.Status)
   gs <self> <follower01> <members> <pins> <replies> => c<cid>=<peer:st,..> ...   (Cluster.StatusAll)
 
+  tf <self> <faults> <recs> <filters> => S=.. SI=<cid:bits,..> L<f>=.. LI=<cid:bits,..>   (tracker views, failing resources / any daemon answer)
+  tr <self> <e|a> <recs> => B=<cid:st,..> R=<cid:st,..> A=<cid:st,..> E=<cid:0|1,..>                   (Recover / RecoverAll against the views)
+  gc/gs: members "!" = consensus.Peers fails; gc pin "!" = the state fails; reply "t" = the call never answers (context ends)
+
+  faults  = "-" | gs,ls,lm,pd,pr,g<cid>,c<cid>  (getState, State.List, State.List mid-way, PinLs direct, PinLs recursive, State.Get cid, PinLsCid cid)
   rec     = <cid>:<pin>:<ipfs u|d|r|i>:<op>       records joined by "/", "-" when none
+            tf: ipfs may also be <lsD><lsR><lsCid> with lsD,lsR in -drib and lsCid in udrib (b = unknown type string)
   pin     = "-" | P<meta01>,<rmin>,<rmax>,<depth>,<alloc.alloc...|x>
   op      = n | <p|u|r><e|q|i|d>                   (pin/unpin/remote)(error/queued/in progress/done)
   replies = gc: <peer>:o<st> | <peer>:e | <peer>:a  joined by ","
@@ -175,14 +181,223 @@ def answerT (pre post : List String) : String :=
             | none => "ok " ++ arms i ++ (if i.recs.isEmpty || !i.ipfsUp then " trivial" else "")
   | _ => "bad-case arity"
 
+/-! ### tracker cases with failing resources (`tf`) -/
+
+def parseAnsChar (c : Char) : Option (Option IpfsStatus) :=
+  match c with
+  | '-' => some none | 'd' => some (some .direct) | 'r' => some (some .recursive)
+  | 'i' => some (some .indirect) | 'b' => some (some .bug) | _ => none
+
+def parseCidAns (c : Char) : Option IpfsStatus :=
+  match c with
+  | 'u' => some .unpinned | 'd' => some .direct | 'r' => some .recursive | 'i' => some .indirect | 'b' => some .bug
+  | _ => none
+
+def parseAns (pin : Option Pin) (s : String) : Option DaemonAns :=
+  match s.toList with
+  | [c] => do pure (wellBehaved pin (← parseIpfs (String.singleton c)))
+  | [a, b, c] => do
+    let lsD ← parseAnsChar a
+    let lsR ← parseAnsChar b
+    let lsCid ← parseCidAns c
+    pure { lsD, lsR, lsCid }
+  | _ => none
+
+def parseFRec (getE cidE : List Nat) (s : String) : Option FRec :=
+  match s.splitOn ":" with
+  | [c, p, f, o] => do
+    let cid ← c.toNat?
+    let pin ← parsePin p
+    pure { cid, pin, ans := ← parseAns pin f, op := ← parseOp o,
+           getErr := getE.contains cid, lsCidErr := cidE.contains cid }
+  | _ => none
+
+structure Faults where
+  stateErr : Bool := false
+  listErr : Bool := false
+  lsDErr : Bool := false
+  lsRErr : Bool := false
+  getE : List Nat := []
+  cidE : List Nat := []
+
+def parseFault (acc : Faults) (t : String) : Option Faults :=
+  if t == "gs" then some { acc with stateErr := true }
+  else if t == "ls" || t == "lm" then some { acc with listErr := true }
+  else if t == "pd" then some { acc with lsDErr := true }
+  else if t == "pr" then some { acc with lsRErr := true }
+  else if t.startsWith "g" then do pure { acc with getE := acc.getE ++ [← ((t.drop 1).toString).toNat?] }
+  else if t.startsWith "c" then do pure { acc with cidE := acc.cidE ++ [← ((t.drop 1).toString).toNat?] }
+  else none
+
+def parseFaults (s : String) : Option Faults :=
+  if s == "-" then some {} else (s.splitOn ",").foldlM parseFault {}
+
+def parseOutTokF (acc : OutputF) (s : String) : Option OutputF :=
+  match s.splitOn "=" with
+  | [k, v] =>
+    if k == "S" then do pure { acc with each := ← parsePairs v }
+    else if k == "SI" then do pure { acc with eachInfo := ← parsePairs v }
+    else if k == "LI" then do pure { acc with listInfo := ← parsePairs v }
+    else if k.startsWith "L" then do
+      let f ← ((k.drop 1).toString).toNat?
+      pure { acc with lists := acc.lists ++ [(f, ← parsePairs v)] }
+    else none
+  | _ => none
+
+def opCodeO (o : Option Op) : String :=
+  match o with
+  | none => "noop"
+  | some o =>
+    if o.phase == .done then "noop" else
+    (match o.typ with | .pin => "p" | .unpin => "u" | .remote => "r") ++
+    (match o.phase with | .error => "e" | .queued => "q" | .inProgress => "i" | .done => "d")
+
+def describeF (i : FInput) (o : OutputF) (r : FRec) : String :=
+  match r.coherentHeld with
+  | some h =>
+    let r0 := r.toRec h
+    let i0 : Input := { self := i.self, ipfsUp := true, recs := [] }
+    kindOf i0 r0 ++ ":held" ++ (if r0.held then "1" else "0") ++ ":ipfs" ++ ipfsCode h ++ ":" ++ opCodeO r.op ++
+      ":S" ++ toString (viewSF o r) ++ ":L" ++ toString (viewLF o r)
+  | none => "incoherent:" ++ opCodeO r.op ++ ":S" ++ toString (viewSF o r) ++ ":L" ++ toString (viewLF o r)
+
+/-- model's PinInfo bits for the per-CID view and for a listed entry -/
+def infoBitsS (i : FInput) (r : FRec) : Nat := 23 + (if errTextS i r then 8 else 0)
+def errTextL (r : FRec) (st : Nat) : Bool :=
+  match r.op with
+  | some o => if o.phase == .done then isErr st else o.phase == .error
+  | none => isErr st
+def infoBitsL (r : FRec) (st : Nat) : Nat := 23 + (if errTextL r st then 8 else 0)
+
+def whyF (i : FInput) (o : OutputF) : List String :=
+  ((i.recs.filter (fun r => !agreeF i o r)).map (fun r => "fa_views_agree@" ++ describeF i o r)) ++
+  ((i.recs.filter (fun r => !agreeStrictF i o r)).map (fun r => "fa_views_agree_strict@" ++ describeF i o r)) ++
+  ((i.recs.filter (fun r => !truthF i o r)).map (fun r => "fa_truth@" ++ describeF i o r)) ++
+  ((i.recs.filter (fun r => !faultReported i o r)).map (fun r => "fa_fault_reported@" ++ describeF i o r)) ++
+  (if i.recs.all saneListing then (o.lists.filter (fun e => !filterLawF i o e)).map (fun e => "fa_filter_law@f=" ++ toString e.1) else []) ++
+  ((o.lists.filter (fun e => !completeF i o e)).map (fun e => "fa_no_partial_listing@f=" ++ toString e.1)) ++
+  ((i.recs.filter (fun r => match lookup o.eachInfo r.cid with
+      | some b => !infoOk (viewSF o r) b | none => false)).map (fun r =>
+        "info_ok@S:" ++ opCodeO r.op ++ ":st" ++ toString (viewSF o r) ++ ":b" ++ toString ((lookup o.eachInfo r.cid).getD 0))) ++
+  ((i.recs.filter (fun r => match lookup o.listInfo r.cid with
+      | some b => !infoOk (viewLF o r) b | none => false)).map (fun r =>
+        "info_ok@L:" ++ opCodeO r.op ++ ":st" ++ toString (viewLF o r) ++ ":b" ++ toString ((lookup o.listInfo r.cid).getD 0)))
+
+def armsF (i : FInput) (fl : Faults) (lm : Bool) : String :=
+  let a := (if i.stateErr then ["f-getstate"] else []) ++ (if i.listErr then [if lm then "f-list-midway" else "f-list"] else []) ++
+    (if i.lsDErr then ["f-pinls-direct"] else []) ++ (if i.lsRErr then ["f-pinls-recursive"] else []) ++
+    (if fl.getE.isEmpty then [] else ["f-get"]) ++ (if fl.cidE.isEmpty then [] else ["f-pinlscid"]) ++
+    (if i.recs.any (fun r => r.ans.lsD == some .bug || r.ans.lsR == some .bug || r.ans.lsCid == .bug) then ["unknown-type"] else []) ++
+    (if i.recs.any (fun r => r.coherentHeld.isNone) then ["incoherent-daemon"] else [])
+  let a := if a.isEmpty then ["no-fault"] else a
+  " ".intercalate (a.map (fun x => "arm=" ++ x))
+
+def modelDiffF (i : FInput) (o : OutputF) : Option String :=
+  if o.each != statusEachF i then some ("S=" ++ showPairs (statusEachF i))
+  else
+    match o.lists.find? (fun e => e.2 != statusAllF i e.1) with
+    | some e => some ("L" ++ toString e.1 ++ "=" ++ showPairs (statusAllF i e.1))
+    | none =>
+      let si := i.recs.map (fun r => (r.cid, infoBitsS i r))
+      let li := i.recs.filterMap (fun r => (listEntryF i 0 r).map (fun st => (r.cid, infoBitsL r st)))
+      if o.eachInfo != si then some ("SI=" ++ showPairs si)
+      else if o.listInfo != li then some ("LI=" ++ showPairs li)
+      else none
+
+def answerTF (pre post : List String) : String :=
+  match pre with
+  | [self, faults, recs, filters] =>
+    match (do
+      let fl ← parseFaults faults
+      let rs ← if recs == "-" then some [] else (recs.splitOn "/").mapM (parseFRec fl.getE fl.cidE)
+      let i : FInput := { self := ← self.toNat?, stateErr := fl.stateErr, listErr := fl.listErr,
+                          lsDErr := fl.lsDErr, lsRErr := fl.lsRErr, recs := rs }
+      let fs ← nats filters
+      pure (i, fl, fs)) with
+    | none => "bad-case unparsable-input"
+    | some (i, fl, fs) =>
+      if !wfF i then "bad-case not-wf" else
+      if !(fl.getE ++ fl.cidE).all (fun c => i.recs.any (fun r => r.cid == c)) then "bad-case fault-on-unknown-cid" else
+      let lm := (faults.splitOn ",").contains "lm"
+      if post == ["panic"] then "propfail no_panic " ++ armsF i fl lm else
+      match post.foldlM parseOutTokF { each := [], eachInfo := [], lists := [], listInfo := [] } with
+      | none => "bad-case unparsable-output"
+      | some o =>
+        if o.lists.map (·.1) != fs then "bad-case filters-mismatch"
+        else if !fs.contains 0 then "bad-case no-filter-0"
+        else
+          let failed := (clausesF i o).filter (fun c => !c.2)
+          let md := modelDiffF i o
+          if !failed.isEmpty then
+            "propfail " ++ ",".intercalate (failed.map (·.1)) ++ " " ++ armsF i fl lm ++
+              " why=" ++ ";".intercalate (whyF i o) ++ (if md.isSome then " modeldiff" else "")
+          else
+            match md with
+            | some m => "diff " ++ armsF i fl lm ++ " model=" ++ m
+            | none => "ok " ++ armsF i fl lm ++ (if i.recs.isEmpty then " trivial" else "")
+  | _ => "bad-case arity"
+
+/-! ### Recover / RecoverAll (`tr`) -/
+
+def phaseOfStatus (s : Nat) : Phase := if s == stPinning || s == stUnpinning then .inProgress else .queued
+
+def answerTR (pre post : List String) : String :=
+  match pre with
+  | [self, mode, recs] =>
+    match (do
+      let i : Input := { self := ← self.toNat?, ipfsUp := true, recs := ← parseRecs recs }
+      pure i) with
+    | none => "bad-case unparsable-input"
+    | some i =>
+      if !wf i then "bad-case not-wf" else
+      if mode != "e" && mode != "a" then "bad-case mode" else
+      if post == ["panic"] then "propfail no_panic arm=recover" else
+      match post with
+      | [b, r, a, e] =>
+        match (do
+          let b ← if b.startsWith "B=" then parsePairs ((b.drop 2).toString) else none
+          let r ← if r.startsWith "R=" then parsePairs ((r.drop 2).toString) else none
+          let a ← if a.startsWith "A=" then parsePairs ((a.drop 2).toString) else none
+          let e ← if e.startsWith "E=" then parsePairs ((e.drop 2).toString) else none
+          pure ({ before := b, answer := r, after := a, errText := e } : OutputR)) with
+        | none => "bad-case unparsable-output"
+        | some o =>
+          let arm := "arm=recover-" ++ (if mode == "e" then "each" else "all") ++
+            (if o.before.any (fun e => recoverable e.2) then " arm=recoverable" else "")
+          let failed := (clausesR o).filter (fun c => !c.2)
+          let whyR := (o.answer.filter (fun e => (lookup o.errText e.1 == some 1) != isErr e.2)).map (fun e =>
+            "rc_error_text@" ++ (match i.recs.find? (fun r => r.cid == e.1) with | some r => opCode r | none => "?") ++
+              ":st" ++ toString e.2)
+          if !failed.isEmpty then "propfail " ++ ",".intercalate (failed.map (·.1)) ++ " " ++ arm ++
+            " why=" ++ ";".intercalate whyR else
+          -- the model, with the phase the implementation was seen in
+          let phs (c : Nat) : Phase := phaseOfStatus ((lookup o.answer c).getD 0)
+          let mBefore := if mode == "e" then statusEach i else statusAll i 0
+          let mAnswer := if mode == "e" then i.recs.map (fun r => (r.cid, recover i r (phs r.cid))) else recoverAll i phs
+          -- error text of the answer: the failed operation's, none for a fresh operation
+          let textOf (r : Rec) (s0 : Nat) : Nat :=
+            let r' := afterRecover r s0 (phs r.cid)
+            let b : Bool := match r'.op with
+                | some op => if op.phase == .done then isErr (status i r') else op.phase == .error
+                | none => isErr (status i r')
+            if b then 1 else 0
+          let mText := if mode == "e" then i.recs.map (fun r => (r.cid, textOf r (status i r)))
+            else i.recs.filterMap (fun r => (listEntry i 0 r).map (fun s0 => (r.cid, textOf r s0)))
+          if o.before != mBefore then "diff " ++ arm ++ " model=B=" ++ showPairs mBefore
+          else if o.answer != mAnswer then "diff " ++ arm ++ " model=R=" ++ showPairs mAnswer
+          else if o.errText != mText then "diff " ++ arm ++ " model=E=" ++ showPairs mText
+          else "ok " ++ arm ++ (if i.recs.isEmpty then " trivial" else "")
+      | _ => "bad-case output-arity"
+  | _ => "bad-case arity"
+
 /-! ### cluster-wide cases -/
 
 def parseReplyGc (s : String) : Option (Nat × Reply Nat) :=
   match s.splitOn ":" with
   | [p, r] => do
     let p ← p.toNat?
-    if r == "e" then pure (p, .err) else if r == "a" then pure (p, .auth)
-    else if r.startsWith "o" then do pure (p, .ok (← ((r.drop 1).toString).toNat?))
+    if r == "e" || r == "t" then pure (p, .err) else if r == "a" then pure (p, .auth)
+    else if r.startsWith "o" || r.startsWith "c" then do pure (p, .ok (← ((r.drop 1).toString).toNat?))
     else none
   | _ => none
 
@@ -196,27 +411,34 @@ def answerGc (pre post : List String) : String :=
   match pre with
   | [self, fol, members, pin, replies] =>
     match (do
-      let i : GCidInput := { self := ← self.toNat?, follower := ← bool01 fol, members := ← nats members,
-                             pin := ← parsePin pin, replies := ← listOf parseReplyGc replies }
-      pure i) with
+      let peersErr := members == "!"
+      let stateErr := pin == "!"
+      let i : GCidInput := { self := ← self.toNat?, follower := ← bool01 fol,
+                             members := ← (if peersErr then some [] else nats members),
+                             pin := ← (if stateErr then some none else parsePin pin), replies := ← listOf parseReplyGc replies }
+      pure ({ base := i, stateErr, peersErr } : GCidF)) with
     | none => "bad-case unparsable-input"
-    | some i =>
-      let arm := "arm=gc-" ++ (if i.follower then "follower" else
+    | some fi =>
+      let i := fi.base
+      let arm := "arm=gc-" ++ (if fi.stateErr then "state-fails" else if fi.peersErr then "peers-fails" else
+        if i.follower then "follower" else
         match i.pin with
         | none => "absent"
-        | some p => if p.everywhere then "everywhere" else if p.isMeta then "meta" else "allocated")
+        | some p => if p.everywhere then "everywhere" else if p.isMeta then "meta" else "allocated") ++
+        (if (replies.splitOn ",").any (fun r => r.endsWith ":t") then " arm=gc-timeout" else "") ++
+        (if (replies.splitOn ",").any (fun r => (r.splitOn ":c").length > 1) then " arm=gc-answer-for-other-cid" else "")
       match post with
       | [out] =>
-        if out == "err" || out == "panic" then "propfail g_answers " ++ arm else
-        match parsePairs out with
+        if out == "panic" then "propfail g_answers " ++ arm else
+        match (if out == "err" then some none else (parsePairs out).map some) with
         | none => "bad-case unparsable-output"
         | some o =>
-          let failed := (gcClauses i o).filter (fun c => !c.2)
+          let failed := (gcClausesF fi o).filter (fun c => !c.2)
           if !failed.isEmpty then
             "propfail " ++ ",".intercalate (failed.map (·.1)) ++ " " ++ arm
-          else if sortPairs o != sortPairs (globalCid i) then
-            "diff " ++ arm ++ " model=" ++ showPairs (sortPairs (globalCid i))
-          else "ok " ++ arm ++ (if i.follower || i.members.isEmpty then " trivial" else "")
+          else if o.map sortPairs != (globalCidF fi).map sortPairs then
+            "diff " ++ arm ++ " model=" ++ (match globalCidF fi with | some m => showPairs (sortPairs m) | none => "err")
+          else "ok " ++ arm ++ (if (i.follower && !fi.stateErr) || (i.members.isEmpty && !fi.peersErr && !fi.stateErr) then " trivial" else "")
       | _ => "bad-case output-arity"
   | _ => "bad-case arity"
 
@@ -235,7 +457,7 @@ def parseReplyGs (s : String) : Option (Nat × Reply (List (Nat × Nat))) :=
   match s.splitOn "=" with
   | [p, r] => do
     let p ← p.toNat?
-    if r == "e" then pure (p, .err) else if r == "a" then pure (p, .auth)
+    if r == "e" || r == "t" then pure (p, .err) else if r == "a" then pure (p, .auth)
     else if r.startsWith "o" then
       let body := (r.drop 1).toString
       if body == "" then pure (p, .ok []) else do
@@ -273,28 +495,34 @@ def answerGs (pre post : List String) : String :=
   match pre with
   | [self, fol, members, pins, replies] =>
     match (do
-      let i : GSliceInput := { self := ← self.toNat?, follower := ← bool01 fol, members := ← nats members,
+      let peersErr := members == "!"
+      let i : GSliceInput := { self := ← self.toNat?, follower := ← bool01 fol,
+                               members := ← (if peersErr then some [] else nats members),
                                pins := ← parsePinsGs pins,
                                replies := ← (if replies == "-" then some [] else (replies.splitOn "/").mapM parseReplyGs) }
-      pure i) with
+      pure ({ base := i, peersErr } : GSliceF)) with
     | none => "bad-case unparsable-input"
-    | some i =>
-      let arm := "arm=gs-" ++ (if i.follower then "follower" else
+    | some fi =>
+      let i := fi.base
+      let dupOrShort := i.replies.any (fun e => match e.2 with
+        | .ok l => !peerOnce (l.map (fun x => (x.1, 0))) | _ => false)
+      let arm := "arm=gs-" ++ (if fi.peersErr then "peers-fails" else if i.follower then "follower" else
         if i.members.any (fun p => match replyOf i.replies p with | .err => true | _ => false) then "some-unreachable"
         else if i.members.any (fun p => match replyOf i.replies p with | .auth => true | _ => false) then "some-refused"
-        else "all-answer")
-      if post == ["err"] || post == ["panic"] then "propfail g_answers " ++ arm else
-      match parseGsOut post with
+        else "all-answer") ++ (if dupOrShort then " arm=gs-repeated-entries" else "") ++
+        (if (replies.splitOn "/").any (fun r => r.endsWith "=t") then " arm=gs-timeout" else "")
+      if post == ["panic"] then "propfail g_answers " ++ arm else
+      match (if post == ["err"] then some none else (parseGsOut post).map some) with
       | none => "bad-case unparsable-output"
-      | some o =>
-        let failed := (gsClauses i o).filter (fun c => !c.2)
-        let md := canonGs o != canonGs (globalSlice i)
+      | some oo =>
+        let failed := (gsClausesF fi oo).filter (fun c => !c.2)
+        let md := oo.map canonGs != (globalSliceF fi).map canonGs
         if !failed.isEmpty then
           "propfail " ++ ",".intercalate (failed.map (·.1)) ++ " " ++ arm ++
-            " why=" ++ ";".intercalate (dedupStr (gsWhy i o)) ++ (if md then " modeldiff" else "")
+            " why=" ++ ";".intercalate (dedupStr (gsWhy i (oo.getD []))) ++ (if md then " modeldiff" else "")
         else if md then
-          "diff " ++ arm ++ " model=" ++ showGs (canonGs (globalSlice i))
-        else "ok " ++ arm ++ (if i.follower || o.isEmpty then " trivial" else "")
+          "diff " ++ arm ++ " model=" ++ (match globalSliceF fi with | some m => showGs (canonGs m) | none => "err")
+        else "ok " ++ arm ++ (if (i.follower && !fi.peersErr) || (oo.getD []).isEmpty && !fi.peersErr then " trivial" else "")
   | _ => "bad-case arity"
 
 /-- answer for one case line (tokens after the leading "C06") -/
@@ -307,6 +535,8 @@ def answer (ws : List String) : String :=
       if kind == "t" then answerT pre post
       else if kind == "gc" then answerGc pre post
       else if kind == "gs" then answerGs pre post
+      else if kind == "tf" then answerTF pre post
+      else if kind == "tr" then answerTR pre post
       else "bad-case unknown-kind"
   | [] => "bad-case empty"
 
